@@ -30,7 +30,29 @@ func TODO() Context                             { return context.TODO() }
 func WithValue(p Context, k, v any) Context     { return context.WithValue(p, k, v) }
 func Cause(c Context) error                     { return context.Cause(c) }
 func WithoutCancel(p Context) Context           { return context.WithoutCancel(p) }
-func AfterFunc(c Context, f func()) func() bool { panic("vctx: context.AfterFunc is not modelled") }
+
+// AfterFunc is modelled with a managed thread that waits for ctx or stop.
+func AfterFunc(ctx Context, f func()) (stop func() bool) {
+	if !vsched.Active() {
+		return context.AfterFunc(ctx, f)
+	}
+	stopCh := make(chan struct{})
+	state := 0 // 0 pending, 1 started, 2 stopped
+	vsched.Go("context.AfterFunc", func() {
+		if vsched.Select("context.AfterFunc", false, vsched.RecvCase(ctx.Done()), vsched.RecvCase((<-chan struct{})(stopCh))) == 0 && state == 0 {
+			state = 1
+			f()
+		}
+	})
+	return func() bool {
+		if state != 0 {
+			return false
+		}
+		state = 2
+		vsched.Close("context.AfterFunc.stop", stopCh)
+		return true
+	}
+}
 
 // Ctx forwards to a std context.
 type Ctx struct {
